@@ -1,21 +1,21 @@
 #!/bin/bash
-# seeded_eval.sh <seeded-id> <prop> [<prop>...]: applies /verif/seeded/<id>/patch.diff to /repo, runs the
-# named checks (quick), records results in /verif/seeded/<id>/result.json, and reverts /repo.
+# seeded_eval.sh <seeded-id> <prop> [<prop>...]: applies /verif/seeded/<id>/patch.diff to a scratch copy of
+# /repo (never to /repo itself), runs the named checks (quick) against that copy via VERIF_REPO, records the
+# outcome in /verif/seeded/<id>/result.json and removes the copy.
 set -u
 ID=$1; shift
 D=/verif/seeded/$ID
+SCR=$(mktemp -d /var/tmp/seeded-XXXXXX)
+trap 'rm -rf $SCR' EXIT
+rsync -a --exclude .git /repo/ $SCR/repo/
+( cd $SCR/repo && git init -q . 2>/dev/null && git apply $D/patch.diff ) || ( cd $SCR/repo && patch -p1 -s < $D/patch.diff ) || { echo "$ID patch does not apply"; exit 2; }
 cd /verif
-if ! git -C /repo diff --quiet; then echo "/repo has uncommitted changes"; exit 2; fi
-git -C /repo apply $D/patch.diff || { echo "patch does not apply"; exit 2; }
 RES="{}"
 for P in "$@"; do
-  OUT=$(VERIF_BUDGET_S=${SEEDED_BUDGET_S:-75} VERIF_SHRINK_S=${SEEDED_SHRINK_S:-40} timeout 1500 ./check $P quick 2>&1)
+  OUT=$(VERIF_REPO=$SCR/repo VERIF_EVIDENCE_DIR=$SCR/evidence VERIF_REPLAY_DIR=$D VERIF_BUDGET_S=${SEEDED_BUDGET_S:-75} VERIF_SHRINK_S=${SEEDED_SHRINK_S:-40} timeout 1500 ./check $P quick 2>&1)
   RC=$?
   SIG=$(echo "$OUT" | grep -m1 '^violation:' | sed 's/^violation: //')
-  RP=$(echo "$OUT" | grep -m1 '^VIOLATION' | sed 's/.*replay=//')
-  if [ -n "$RP" ] && [ -f "$RP" ]; then cp "$RP" $D/replay-$P.json; fi
   echo "$ID $P exit=$RC $SIG"
   RES=$(echo "$RES" | jq --arg p "$P" --arg rc "$RC" --arg sig "$SIG" '. + {($p): {exit: ($rc|tonumber), signature: $sig}}')
 done
-git -C /repo checkout -- .
 echo "$RES" > $D/result.json
